@@ -38,6 +38,11 @@ class C03(CtxCheck):
     def seeds(self, tier: str) -> list[list]:
         root = [("new", -1, False), ("enter", 0, False)]
         out = [root]
+        # a context that is being torn down (reached through a first-registered teardown callback): adds are still allowed there
+        hooked = [("new", -1, False), ("enter", 0, True)]
+        out.append(hooked + [("leave", 0, "clean")])
+        out.append(hooked + [("op", 0, ("add", "Ad", True, "v:c0:Ad:0", "m")), ("leave", 0, "clean")])
+        out.append([("new", -1, False), ("enter", 0, False), ("new", 0, False), ("enter", 1, True), ("leave", 1, "clean")])
         for k in ("Ad", "Bd", "ABd", "BAd", "Ax"):
             for td in (False, True):
                 out.append(root + [("op", 0, ("add", k, td, f"v:c0:{k}:0", "m"))])
@@ -76,6 +81,14 @@ class C03(CtxCheck):
                 if m.state == "open":
                     ops.append(("new", m.idx, False))
         for m in u.models:
+            if m.state == "closing" and u.in_teardown[m.idx]:
+                ops.append(("resume", m.idx))
+                for k in ("Ad", "Bd", "ABd"):
+                    n = nth(u, m.idx, "add", k)
+                    if n < 2:
+                        for td in (False, True):
+                            ops.append(("op", m.idx, ("add", k, td, f"v:c{m.idx}:{k}:{n}", "m")))
+                ops.append(("op", m.idx, ("bad", "bad-td", f"bad:closing:{len(u.hist)}")))
             if m.state == "inactive":
                 ops.append(("enter", m.idx, False))
             elif m.state == "open":
